@@ -162,6 +162,69 @@ def _classify_entry(ex, el):
     return ("?", None)
 
 
+def _subscription_in_batch(srv, core):
+    """no response to a batch entry is delivered outside the reply array: the library's convention is that a MethodResponse of kind
+    Subscription has already been sent on the connection by PendingSubscriptionSink::accept (the WebSocket loop therefore never sends
+    such a response itself) - so RpcService::batch must not put a response of that kind into the array as well"""
+    b = R.find_body(srv, r"^fn rpc::<impl at server/src/middleware/rpc\.rs:[\d: ]+>::batch::\{closure#0\}\(_1: Pin<&mut \{async block@server/src/middleware/rpc\.rs")
+    kinds = R.source_tables()["enums"]["ResponseKind"]
+    fi_kind = R.field_index("MethodResponse", "kind")
+    kind = z3.BitVec("call_response.kind", 64)
+
+    def m_poll_ready(ex, st, callee, args, dty, site):
+        rp = Node(ex.ctx.fresh_name("call_response"), "MethodResponse")
+        k = Node(rp.name + f".{fi_kind}", "ResponseKind")
+        d = Node(k.name + ".discr", "isize")
+        d.val = kind
+        k.kids["discr"] = d
+        rp.kids[fi_kind] = k
+        return ex.mk_variant("Poll", 0, "Ready", rp)
+
+    def m_batch_iter(ex, st, callee, args, dty, site):
+        be = Node("entry0", "BatchEntry")
+        d = Node("entry0.discr", "isize")
+        d.val = z3.BitVecVal(0, 64)
+        be.kids["discr"] = d
+        payload = Node("entry0.payload", None)
+        payload.val = Opaque(z3.Const("request0", OBJ))
+        be.kids[("Call", 0)] = payload
+        lst = LM.new_list(ex, [ex.mk_variant("Result", 0, "Ok", be)], name="batch")
+        return LM.m_into_iter(ex, st, callee, [lst], dty, site)
+
+    def m_append(ex, st, callee, args, dty, site):
+        return ex.mk_variant("Result", 0, "Ok", Opaque(z3.Const("unit", OBJ)))
+    extra = [(r"^BatchResponseBuilder::append$", m_append), (r"^BatchResponseBuilder::is_empty$", lambda ex, st, c, a, d, s: z3.BoolVal(False)),
+             (r"as (futures_util::|std::future::)?Future>::poll$", m_poll_ready),
+             (r"^<jsonrpsee_core::middleware::Batch<'_> as IntoIterator>::into_iter$", m_batch_iter), (r"^<std::vec::IntoIter<.*> as Iterator>::next$", LM.m_iter_next)]
+    ex, ctx, paths = P.explore(srv, b, extra_models=extra + LM.LIST_MODELS + SQ.TRY_MODELS + list(M.TRACING_MODELS), max_paths=4000, max_visits=4)
+    bad = [(p.kind, p.detail) for p in paths if p.kind in ("unsupported", "limit", "unwound", "panic")]
+    viol, reach = [], []
+    for p in paths:
+        if p.kind != "return" or p.state != 0:
+            continue
+        apps = [e for e in p.events if e.kind == "call" and e.callee == "BatchResponseBuilder::append"]
+        for e in apps:
+            rp = MM.value_of(ex, e.args[1])
+            if isinstance(rp, Node) and fi_kind in rp.kids:
+                kd = ex.discr_of(ex.read_node(rp.kids[fi_kind]))
+                reach.append(z3.And(p.cond(), z3.ULE(kind, len(kinds) - 1)))
+                viol.append(z3.And(p.cond(), kd == kinds.index("Subscription"), z3.ULE(kind, len(kinds) - 1)))
+    # the premise: accept() does send the response on the connection's sink itself
+    from .C06 import Drv as SubDrv
+    d = SubDrv(core)
+    d.sids = [z3.BitVec("sub0.id", 64)]
+    direct = []
+    for w in d.initial(3):
+        for w2, got in d.op_acquire(w):
+            if not got:
+                continue
+            for w3, res, pth in d.op_accept(w2, 0):
+                if res == "ok":
+                    direct.append(any(e.kind == "call" and e.callee == "MethodSink::send" for e in pth.events))
+    premise = bool(direct) and all(direct)
+    return b, viol, reach, bad, premise, sorted(d.ctx.encoded_bodies)
+
+
 def obligations(tier, seed):
     srv = R.bodies("server")
     out = []
@@ -256,6 +319,21 @@ def obligations(tier, seed):
                             keydetail="batch-branch", extra={"models": ["call / notification / invalid-request / array parsers: independent solver-chosen outcomes per element"]},
                             replay=dict(scenario="c02_batches", vars={"limit": lim}, fixed={"k": k}, region=z3.And(z3.ULE(lim, 64)))))
     out += _service_batch(srv, tier)
+    b, viol, reach, bad, premise, more = _subscription_in_batch(srv, R.bodies("core"))
+    if bad or not reach:
+        out.append(R.Result(engine="mirsym", name="service-batch:subscription-response", kind="order", status="unsupported" if bad else "vacuous", detail=str(bad[:1])[:300], bodies=[b.name]))
+    elif not premise:
+        out.append(R.Result(engine="mirsym", name="service-batch:subscription-response", kind="order", status="unsupported",
+                            detail="PendingSubscriptionSink::accept no longer sends the subscribe response on the sink itself - the premise of this obligation needs review", bodies=[b.name] + more))
+    else:
+        r = R.decide("service-batch:subscription-response:not-delivered-twice", "order", z3.Or(*viol), [z3.Or(*reach)], bodies=[b.name] + more,
+                     desc="a response of kind Subscription (already sent on the connection by PendingSubscriptionSink::accept) is not put into the batch reply array as well: "
+                          "no response to a batch entry is delivered outside that array",
+                     bounds="one call entry whose response has any ResponseKind", keydetail="subscription-in-batch")
+        if r["status"] == "violated":
+            r["key"] = "mirsym:c02:subscription-response-delivered-outside-the-array"
+            r["replay"] = {"scenario": "c02_ws_batch_with_subscription", "args": {"entries": ["sub", "call"]}}
+        out.append(r)
     return out
 
 
